@@ -230,6 +230,11 @@ class ExprMixin(ExecBase):
         op = n.op
         if a.ty.kind == 'list' and b.ty.kind == 'list' and isinstance(op, ast.Add):
             return self.list_concat(a, b)
+        if isinstance(op, ast.Add) and a.ty.kind == 'obj' and b.ty.kind == 'obj' and a.ty.cls == 'str' and b.ty.cls == 'str':
+            f = z3.Function('str_concat', Ref, Ref, Ref)
+            t = f(a.term, b.term)
+            self.assume(Ref.is_str(t))
+            return V(STR, t)
         if isinstance(op, ast.BitAnd) and a.ty.kind == 'set' and b.ty.kind == 'set':
             x = z3.Const(fresh_name('x'), a.ty.args[0].sort())
             return V(a.ty, z3.Lambda([x], z3.And(z3.Select(a.term, x), z3.Select(b.term, x))))
